@@ -461,7 +461,7 @@ static bool check_handles_ok(Case& c, const Fn* f, const Args& A, const CallResu
     if (r <= 0) {
       // after a call that reported success, a false OK() is a defect of the C++ domain underneath (the business of C01-C10's monitors),
       // not of the interface layer C20 speaks about: counted, and the object is retired; after an error it is C20's "objects stay usable"
-      if (cr.r >= 0) { hx::count("handle.not_ok_after_success." + type_family(type_table[o.type].name)); o.alive = false; return false; }
+      if (cr.r >= 0) { hx::count("handle.not_ok_after_success." + type_family(type_table[o.type].name)); release_obj(c, A.obj[k]); continue; }
       viol(c, std::string("C20.handle.not_ok.") + type_family(type_table[o.type].name) + "." + cls, what + ": argument " + f->args[k].name + " fails " + okf->name + " (" + itos(r) + ")");
       return false;
     }
@@ -659,6 +659,8 @@ static StepOut step(Case& c, const Fn* f, const Mut& mut, Mode mode, long arm_k,
         const ArgSpec& s = f->args[k];
         const TypeOps* ops = s.type >= 0 ? type_table[s.type].ops : 0;
         hx::checked(1);
+        bool aliases_mutable = false;   // the same handle also passed as a non-const argument: it is allowed to change
+        if (s.kind == K_HIN) for (int m2 = 0; m2 < f->nargs; ++m2) if (m2 != k && f->args[m2].kind == K_HIN && !f->args[m2].is_const && A.a[m2].p == A.a[k].p) aliases_mutable = true;
         switch (s.kind) {
         case K_HIN:
           if (!t.cp[k] || (f->skip_cmp & (1u << k)) || ((F & F_CLOBBER1) && k == 1) || ((F & F_DELETE) && k == 0)) break;
@@ -667,8 +669,6 @@ static StepOut step(Case& c, const Fn* f, const Mut& mut, Mode mode, long arm_k,
             viol(c, key, what + ": argument " + s.name + " after the call: C side {" + ops->dump(A.a[k].p).substr(0, 600) + "} twin {" + ops->dump(t.cp[k]).substr(0, 600) + "}");
             ok = false; break;
           }
-          bool aliases_mutable = false;   // the same handle also passed as a non-const argument: it is allowed to change
-          for (int m2 = 0; m2 < f->nargs; ++m2) if (m2 != k && f->args[m2].kind == K_HIN && !f->args[m2].is_const && A.a[m2].p == A.a[k].p) aliases_mutable = true;
           if (pre[k] && !aliases_mutable) {
             if (!ops->equal(A.a[k].p, pre[k])) { viol(c, "C20.const_modified." + pat, what + ": const argument " + s.name + " changed value: before {" + dump_before[k].substr(0, 500) + "} after {" + ops->dump(A.a[k].p).substr(0, 500) + "}"); ok = false; break; }
             std::string after = ops->dump(A.a[k].p);
